@@ -73,7 +73,7 @@ theorem endInv_step {c : Cfg} (hw : c.wiring = Wiring.std) {s s' : State} {a : A
     exact endInv_gen (es := [.waitReturned [.ctxErr]]) h same (Nat.le_refl _) (by simp) (by simp)
   | callerRetFin =>
     obtain ⟨_, _, _, rfl⟩ := inv_callerRetFin hs
-    exact endInv_gen (es := [.waitReturned (retVal s)]) h same (Nat.le_refl _) (by simp) (by simp)
+    exact endInv_gen (es := [.waitReturned (retVal c s)]) h same (Nat.le_refl _) (by simp) (by simp)
   | loopEnq =>
     obtain ⟨j, rest, _, _, _, rfl⟩ := inv_loopEnq hs
     exact endInv_gen (es := [.registered j]) h same (Nat.le_refl _) (by simp) (by simp)
@@ -130,13 +130,13 @@ theorem endInv_step {c : Cfg} (hw : c.wiring = Wiring.std) {s s' : State} {a : A
     obtain ⟨j, hj, rfl⟩ := inv_workerEnd hs
     have hjs : j < s.caller.sent := h.slot w _ j hj rfl
     have hst : Ev.started j ∈ s.log := (R.i6.runFresh w j hj).1
-    have hcaller : (afterBody s j o cancel).caller = s.caller := by unfold afterBody; split <;> simp
-    have hws' : (afterBody s j o cancel).ws = s.ws := by unfold afterBody; split <;> simp
-    have hlog : ∃ es, (afterBody s j o cancel).log = s.log ++ es ∧
+    have hcaller : (afterBody c s j o cancel).caller = s.caller := by unfold afterBody; split <;> simp
+    have hws' : (afterBody c s j o cancel).ws = s.ws := by unfold afterBody; split <;> simp
+    have hlog : ∃ es, (afterBody c s j o cancel).log = s.log ++ es ∧
         ∀ k o', Ev.ended k o' ∈ es → k = j := by
       unfold afterBody
       split
-      · exact ⟨[.ended j o, .cancelled], by simp, by intro k o' hm; simp at hm; exact hm.1⟩
+      · exact ⟨[.ended j o, .cancelled (c.ctxOfJob j)], by simp, by intro k o' hm; simp at hm; exact hm.1⟩
       · exact ⟨[.ended j o], by simp, by intro k o' hm; simp at hm; exact hm.1⟩
     obtain ⟨es, hes, hesj⟩ := hlog
     refine endInv_gen (es := es) h ?_ (by simp [hcaller]) (by simpa using hes) ?_
@@ -168,9 +168,9 @@ theorem endInv_step {c : Cfg} (hw : c.wiring = Wiring.std) {s s' : State} {a : A
     intro w' x hx
     simp only [setW_ws, setW_caller] at hx ⊢
     exact set_slot (y := .exited) (by intro k hk; simp [W.job?] at hk) w' x hx
-  | cancel =>
-    obtain ⟨_, rfl⟩ := inv_cancel hs
-    exact endInv_gen (es := [.cancelled]) h same (Nat.le_refl _) (by simp) (by simp)
+  | cancel x =>
+    obtain ⟨_, _, rfl⟩ := inv_cancel hs
+    exact endInv_gen (es := [.cancelled x]) h same (Nat.le_refl _) (by simp) (by simp)
 
 theorem endInv_run {c : Cfg} (hw : c.wiring = Wiring.std) (hwf : WfCfg c) (acts : List Act) (s : State)
     (hr : run c (init c) acts = some s) : EndInv s := by
